@@ -294,6 +294,15 @@ impl<T: Elem + SatisfyTraits<Tr>, M: MX, Tr: TrX + ?Sized> World<T, M, Tr> {
         for e in a.iter() {
             if e.value_typeid() != TypeId::of::<T>() || e.size() != size_of::<T>() { out.fail(Class::Type, "handle-report", "iterator item reports a wrong type id / size".into()); }
         }
+        // owned wrapper and raw values describe their real type too
+        {
+            let w = AnyValueWrapper::new(T::fresh());
+            if w.size() != size_of::<T>() || w.value_typeid() != TypeId::of::<T>() || w.as_bytes().len() != size_of::<T>() { out.fail(Class::Type, "handle-report", "AnyValueWrapper reports a wrong size / type id".into()); }
+            let mut v = ManuallyDrop::new(T::fresh());
+            let raw = unsafe { AnyValueRaw::new(NonNull::from(&mut *v).cast::<u8>(), size_of::<T>(), TypeId::of::<T>()) };
+            if raw.size() != size_of::<T>() || raw.value_typeid() != TypeId::of::<T>() || raw.as_bytes().as_ptr() as usize != &*v as *const T as usize { out.fail(Class::Type, "handle-report", "AnyValueRaw reports a wrong size / type id / address".into()); }
+            unsafe { ManuallyDrop::drop(&mut v); }
+        }
         let s = snap::<T, Tr, M>(a);
         if !snap_matches::<T>(&s, &self.ma) { out.fail(Class::Vec, "seq-mismatch", "contents changed by read-only reports".into()); }
         out.outcome.push_str("ok");
